@@ -1,7 +1,7 @@
 (* IsolationP.v — proofs about the process-state model of theories/Isolation.v (property C19). *)
 From Coq Require Import Lia.
 From SFV Require Import Base Isolation UniqueId.
-From SFV.P Require Import UniqueIdP.
+From SFV.P Require Import BaseP UniqueIdP.
 
 Ltac splits := repeat match goal with |- _ /\ _ => split end.
 
@@ -127,14 +127,61 @@ Qed.
 
 (* ---------------------------------------------------------------- coherence invariant *)
 
+Lemma proc_eta p :
+  mkProc (p_uid p) (p_dates p) (p_dts p) (p_masks p) (p_rowhist p) (p_cwd p) (p_path p) (p_home p)
+         (p_modules p) (p_app p) = p.
+Proof. destruct p; reflexivity. Qed.
+
+(* ---------------------------------------------------------------- restoring runs are independent *)
+
+(* The argument in the abstract, for ANY state space and ANY run function.  [R a b]: the states a
+   and b cannot be told apart by a run of an admissible job ([reads_only_R]).  [restores]: a run -
+   of any job, admissible or not, and whatever its exit path: the result component, which says
+   whether it ended normally, with a recipe error or with another exception, is not consulted -
+   leaves a state that cannot be told apart from the one it started in.  Then no history of runs
+   can change the outcome of the next admissible job. *)
+Section Restore.
+  Variables St In Out : Type.
+  Variable grun : St -> In -> St * Out.
+  Variable R : St -> St -> Prop.
+  Variable admissible : In -> Prop.
+  Hypothesis R_sym : forall a b, R a b -> R b a.
+  Hypothesis R_trans : forall a b c, R a b -> R b c -> R a c.
+  Hypothesis reads_only_R : forall s1 s2 i, admissible i -> R s1 s2 -> snd (grun s1 i) = snd (grun s2 i).
+  Hypothesis restores : forall s i, R s s -> R (fst (grun s i)) s.
+
+  Fixpoint gafter (s : St) (h : list In) : St :=
+    match h with [] => s | i :: r => gafter (fst (grun s i)) r end.
+
+  Lemma gafter_R h : forall s, R s s -> R (gafter s h) s.
+  Proof.
+    induction h as [|i h IH]; intros s Hs; cbn [gafter]; auto.
+    pose proof (restores s i Hs) as H1.
+    assert (H2 : R (fst (grun s i)) (fst (grun s i))) by (eapply R_trans; [exact H1|apply R_sym; exact H1]).
+    eapply R_trans; [apply IH; exact H2|exact H1].
+  Qed.
+
+  Theorem restoring_runs_independent s h i :
+    R s s -> admissible i -> snd (grun (gafter s h) i) = snd (grun s i).
+  Proof. intros Hs Hi. apply reads_only_R; auto. apply gafter_R. exact Hs. Qed.
+End Restore.
+
 Section P.
   Variable parse_d parse_dt : key -> option Z.
+  Variable read_file : string -> string -> result Z.
+  Variable load_plugin : string -> string -> result bool.
 
-  Notation step := (step parse_d parse_dt).
-  Notation exec_ops := (exec_ops parse_d parse_dt).
-  Notation run := (run parse_d parse_dt).
-  Notation run_seq := (run_seq parse_d parse_dt).
-  Notation after := (after parse_d parse_dt).
+  Notation step := (step parse_d parse_dt read_file).
+  Notation exec_ops := (exec_ops parse_d parse_dt read_file).
+  Notation iterate := (iterate parse_d parse_dt read_file).
+  Notation with_chdir := (with_chdir read_file).
+  Notation resolve_all := (resolve_all load_plugin).
+  Notation with_plugin_path := (with_plugin_path load_plugin).
+  Notation pre_execute := (pre_execute load_plugin).
+  Notation run := (run parse_d parse_dt read_file load_plugin).
+  Notation run_seq := (run_seq parse_d parse_dt read_file load_plugin).
+  Notation after_from := (after_from parse_d parse_dt read_file load_plugin).
+  Notation after := (after parse_d parse_dt read_file load_plugin).
 
   Definition date_entry_ok (k : key) (v : Z) : Prop := parse_d k = Some v.
   Definition dt_entry_ok (k : key) (v : Z) : Prop := parse_dt k = Some v.
@@ -143,14 +190,56 @@ Section P.
   Definition coherent (p : proc) : Prop :=
     items_sat date_entry_ok (p_dates p) /\ items_sat dt_entry_ok (p_dts p).
 
-  Lemma coherent_proc0 : coherent proc0.
+  Lemma coherent_init cwd home : coherent (proc_init cwd home).
   Proof. split; intros k v H; destruct H. Qed.
+
+  Lemma coherent_proc0 : coherent proc0.
+  Proof. apply coherent_init. Qed.
+
+  (* coherence only looks at the two caches *)
+  Lemma coherent_caches p q :
+    p_dates q = p_dates p -> p_dts q = p_dts p -> coherent p -> coherent q.
+  Proof. unfold coherent. intros -> ->. auto. Qed.
 
   (* ODatetime: the three branches of parse_datetimespec *)
   Ltac dt_branches k :=
     destruct (String.eqb k "now"); [|destruct (String.eqb k "today"); [|destruct (is_relative_spec k)]].
 
-  Lemma step_coherent e ver p s o : coherent p -> coherent (fst (step e ver p s o)).
+  (* ---------------------------------------------------------------- the with-blocks *)
+
+  (* `with chdir(d)` as it is in the code (try/finally): however the block is left - normally, by a
+     DataGenError or by any other exception - the process is exactly as before *)
+  Lemma with_chdir_restores d p file : fst (with_chdir true d p file) = p.
+  Proof.
+    unfold Isolation.with_chdir. destruct (read_file _ file); cbn [fst]; unfold set_cwd; cbn; apply proc_eta.
+  Qed.
+
+  (* what one step leaves untouched: working directory, search path, environment, import cache
+     and the application object *)
+  Definition ambient (p : proc) : string * list string * string := (p_cwd p, p_path p, p_home p).
+
+  Lemma step_frame e cx p s o :
+    let p' := fst (step e cx p s o) in
+    ambient p' = ambient p /\ p_modules p' = p_modules p /\ p_app p' = p_app p.
+  Proof.
+    cbn zeta. destruct o; cbn [Isolation.step].
+    - destruct (p_rowhist p); cbn; auto.
+    - cbn; auto.
+    - destruct (gen_find g (rs_gens s)) as [[c i]|]; cbn; auto.
+    - destruct (lru_call _ _ _ _); cbn; auto.
+    - dt_branches k; try (cbn; auto; fail). destruct (lru_call _ _ _ _); cbn; auto.
+    - destruct (p_rowhist p); [destruct (existsb _ _)|]; cbn; auto.
+    - cbn; auto.
+    - cbn; auto.
+    - destruct (last_id table s =? n); cbn; auto.
+    - destruct (assoc_find site (rs_states s)); [cbn; auto|].
+      destruct (lru_call _ _ _ _); cbn; auto.
+    - destruct (assoc_find site (rs_states s)); [cbn; auto|].
+      pose proof (with_chdir_restores (match c_dir cx with Some d => d | None => p_cwd p end) p file) as W.
+      destruct (Isolation.with_chdir _ _ _ _ _) as [p' [v|er]]; cbn [fst] in *; subst p'; auto.
+  Qed.
+
+  Lemma step_coherent e cx p s o : coherent p -> coherent (fst (step e cx p s o)).
   Proof.
     intros [Hd Ht]. destruct o; cbn [Isolation.step].
     - destruct (p_rowhist p); cbn [fst]; split; assumption.
@@ -167,20 +256,134 @@ Section P.
       destruct (existsb _ _); cbn [fst]; split; assumption.
     - cbn [fst]. split; assumption.
     - cbn [fst]. split; assumption.
+    - destruct (last_id table s =? n); cbn [fst]; split; assumption.
+    - destruct (assoc_find site (rs_states s)); [cbn [fst]; split; assumption|].
+      destruct (lru_call date_cache_size parse_d (p_dates p) k) as [c r] eqn:E. cbn [fst].
+      split; cbn [set_dates p_dates p_dts]; auto.
+      change c with (fst (c, r)). rewrite <- E. apply lru_call_items; auto.
+    - destruct (assoc_find site (rs_states s)); [cbn [fst]; split; assumption|].
+      pose proof (with_chdir_restores (match c_dir cx with Some d => d | None => p_cwd p end) p file) as W.
+      destruct (Isolation.with_chdir _ _ _ _ _) as [p' [v|er]]; cbn [fst] in *; subst p'; split; assumption.
   Qed.
 
-  Lemma exec_coherent e ver ops : forall p s, coherent p -> coherent (fst (exec_ops e ver p s ops)).
+  Lemma exec_coherent e cx ops : forall p s, coherent p -> coherent (fst (fst (exec_ops e cx p s ops))).
   Proof.
     induction ops as [|o ops IH]; intros p s H; cbn [Isolation.exec_ops]; auto.
-    pose proof (step_coherent e ver p s o H) as H1.
-    destruct (step e ver p s o) as [p' [[s' b]|er]]; cbn [fst] in *; auto.
-    specialize (IH p' s' H1). destruct (exec_ops e ver p' s' ops) as [p'' out]. exact IH.
+    pose proof (step_coherent e cx p s o H) as H1.
+    destruct (step e cx p s o) as [p' [[s' b]|er]]; cbn [fst] in *; auto.
+    specialize (IH p' s' H1). destruct (exec_ops e cx p' s' ops) as [[p'' s''] out]. exact IH.
+  Qed.
+
+  Lemma exec_frame e cx ops : forall p s,
+    let p' := fst (fst (exec_ops e cx p s ops)) in
+    ambient p' = ambient p /\ p_modules p' = p_modules p /\ p_app p' = p_app p.
+  Proof.
+    induction ops as [|o ops IH]; intros p s; cbn zeta; cbn [Isolation.exec_ops]; auto.
+    pose proof (step_frame e cx p s o) as H1. cbn zeta in H1.
+    destruct (step e cx p s o) as [p' [[s' b]|er]]; cbn [fst] in *; auto.
+    specialize (IH p' s'). cbn zeta in IH. destruct (exec_ops e cx p' s' ops) as [[p'' s''] out].
+    cbn [fst] in *. destruct H1 as (A & B & C). destruct IH as (A' & B' & C'). rewrite A', B', C'. auto.
+  Qed.
+
+  Lemma coherent_set_app p a : coherent p -> coherent (set_app p a).
+  Proof. apply coherent_caches; reflexivity. Qed.
+
+  Lemma iterate_coherent e cx c body fuel : forall p s,
+    coherent p -> coherent (fst (iterate fuel e cx c body p s)).
+  Proof.
+    induction fuel as [|f IH]; intros p s H; cbn [Isolation.iterate fst]; auto.
+    pose proof (exec_coherent e cx body p s H) as H1.
+    destruct (exec_ops e cx p s body) as [[p1 s1] out]. cbn [fst] in H1.
+    destruct (o_err out); cbn [fst]; auto.
+    destruct (end_of_iteration c s1 (p_app p1)) as [a [[|]|er]]; cbn [fst]; auto using coherent_set_app.
+    specialize (IH (set_app p1 a) s1 (coherent_set_app _ a H1)).
+    destruct (iterate f e cx c body (set_app p1 a) s1) as [p2 out2]. exact IH.
+  Qed.
+
+  (* the application object is the only thing the loop itself writes *)
+  Lemma iterate_frame e cx c body fuel : forall p s,
+    let p' := fst (iterate fuel e cx c body p s) in
+    ambient p' = ambient p /\ p_modules p' = p_modules p.
+  Proof.
+    induction fuel as [|f IH]; intros p s; cbn zeta; cbn [Isolation.iterate fst]; auto.
+    pose proof (exec_frame e cx body p s) as H1. cbn zeta in H1.
+    destruct (exec_ops e cx p s body) as [[p1 s1] out]. cbn [fst] in H1. destruct H1 as (A & B & _).
+    destruct (o_err out); cbn [fst]; auto.
+    destruct (end_of_iteration c s1 (p_app p1)) as [a [[|]|er]]; cbn [fst]; auto.
+    specialize (IH (set_app p1 a) s1). cbn zeta in IH.
+    destruct (iterate f e cx c body (set_app p1 a) s1) as [p2 out2]. cbn [fst] in *.
+    destruct IH as (A' & B'). rewrite A', B'. auto.
+  Qed.
+
+  (* resolve_all only grows the import cache *)
+  Lemma resolve_all_frame ms : forall p,
+    let p' := fst (resolve_all p ms) in
+    p_uid p' = p_uid p /\ p_dates p' = p_dates p /\ p_dts p' = p_dts p /\ p_masks p' = p_masks p /\
+    p_rowhist p' = p_rowhist p /\ ambient p' = ambient p /\ p_app p' = p_app p /\
+    (forall m, In m (p_modules p) -> In m (p_modules p')).
+  Proof.
+    induction ms as [|m ms IH]; intros p; cbn zeta; cbn [Isolation.resolve_all].
+    - cbn [fst]. splits; auto.
+    - destruct (existsb (String.eqb m) (p_modules p)) eqn:E; [apply IH|].
+      destruct (find_on_path load_plugin (p_path p) m) as [[|]|er]; [|cbn [fst]; splits; auto..].
+      specialize (IH (add_module p m)). cbn zeta in IH.
+      destruct IH as (A & B & C & D & F & G & H & I).
+      unfold add_module in *. cbn [p_uid p_dates p_dts p_masks p_rowhist p_app p_modules] in *.
+      rewrite E in *. splits; auto.
+      intros m' Hm. apply I. right. exact Hm.
+  Qed.
+
+  (* `with plugin_path(...)` as it is in the code: sys.path is put back however the block is left *)
+  Lemma with_plugin_path_frame p r :
+    let p' := fst (with_plugin_path true p r) in
+    p_uid p' = p_uid p /\ p_dates p' = p_dates p /\ p_dts p' = p_dts p /\ p_masks p' = p_masks p /\
+    p_rowhist p' = p_rowhist p /\ ambient p' = ambient p /\ p_app p' = p_app p /\
+    (forall m, In m (p_modules p) -> In m (p_modules p')).
+  Proof.
+    cbn zeta. unfold Isolation.with_plugin_path.
+    pose proof (resolve_all_frame (r_plugins r) (set_path p (search_path p (r_dir r)))) as H. cbn zeta in H.
+    destruct (resolve_all _ _) as [p2 [u|er]]; cbn [fst] in *;
+      destruct H as (A & B & C & D & F & G & H & I); unfold ambient in *;
+      cbn [set_path p_uid p_dates p_dts p_masks p_rowhist p_cwd p_path p_home p_app p_modules] in *;
+      injection G as G1 G2 G3; splits; auto; congruence.
+  Qed.
+
+  Lemma pre_execute_frame p e r :
+    let p' := fst (pre_execute p e r) in
+    p_uid p' = p_uid p /\ p_dates p' = p_dates p /\ p_dts p' = p_dts p /\ p_masks p' = p_masks p /\
+    p_rowhist p' = p_rowhist p /\ ambient p' = ambient p /\
+    p_app p' = (if e_new_app e then app0 else p_app p) /\
+    (forall m, In m (p_modules p) -> In m (p_modules p')).
+  Proof.
+    cbn zeta. unfold Isolation.pre_execute.
+    set (p0 := if e_new_app e then set_app p app0 else p).
+    assert (H0 : p_uid p0 = p_uid p /\ p_dates p0 = p_dates p /\ p_dts p0 = p_dts p /\ p_masks p0 = p_masks p /\
+                 p_rowhist p0 = p_rowhist p /\ ambient p0 = ambient p /\
+                 p_app p0 = (if e_new_app e then app0 else p_app p) /\ p_modules p0 = p_modules p).
+    { unfold p0. destruct (e_new_app e); cbn; splits; auto. }
+    pose proof (with_plugin_path_frame p0 r) as H. cbn zeta in H.
+    destruct H0 as (A0 & B0 & C0 & D0 & F0 & G0 & H0 & I0).
+    destruct H as (A & B & C & D & F & G & H & I).
+    assert (K : forall q, q = fst (with_plugin_path true p0 r) ->
+                p_uid q = p_uid p /\ p_dates q = p_dates p /\ p_dts q = p_dts p /\ p_masks q = p_masks p /\
+                p_rowhist q = p_rowhist p /\ ambient q = ambient p /\
+                p_app q = (if e_new_app e then app0 else p_app p) /\
+                (forall m, In m (p_modules p) -> In m (p_modules q))).
+    { intros q ->. splits; try congruence. intros m Hm. apply I. rewrite I0. exact Hm. }
+    destruct (with_plugin_path true p0 r) as [p1 [u|er]]; cbn [fst] in *; [|apply K; reflexivity].
+    destruct (r_stage r); cbn [fst]; try (apply K; reflexivity).
+    destruct (r_crit r) as [n|t n]; [cbn [fst]; apply K; reflexivity|].
+    destruct (existsb _ _); cbn [fst]; apply K; reflexivity.
   Qed.
 
   Lemma run_coherent p e r : coherent p -> coherent (fst (run p e r)).
   Proof.
-    intros H. unfold Isolation.run. destruct (r_stage r); cbn [fst]; auto.
-    apply exec_coherent. destruct H as [A B]. split; assumption.
+    intros H. unfold Isolation.run.
+    pose proof (pre_execute_frame p e r) as F. cbn zeta in F.
+    destruct (pre_execute p e r) as [p1 [u|er]]; cbn [fst] in *;
+      destruct F as (_ & B & C & _).
+    - apply iterate_coherent. eapply coherent_caches; [| |exact H]; cbn; auto.
+    - eapply coherent_caches; [| |exact H]; auto.
   Qed.
 
   Lemma run_seq_coherent l : forall p, coherent p -> coherent (fst (run_seq p l)).
@@ -189,6 +392,9 @@ Section P.
     pose proof (run_coherent p e r H) as H1. destruct (run p e r) as [p1 o]. cbn [fst] in H1.
     specialize (IH p1 H1). destruct (run_seq p1 l) as [p2 os]. exact IH.
   Qed.
+
+  Lemma after_from_coherent p0 l : coherent p0 -> coherent (after_from p0 l).
+  Proof. apply run_seq_coherent. Qed.
 
   Lemma after_coherent l : coherent (after l).
   Proof. apply run_seq_coherent. apply coherent_proc0. Qed.
@@ -208,153 +414,380 @@ Section P.
   Qed.
 
   (* the clock keys never enter the datetime cache *)
-  Lemma step_clock_untouched e ver p s k :
-    is_clock_key k = true -> fst (step e ver p s (ODatetime k)) = p.
+  Lemma step_clock_untouched e cx p s k :
+    is_clock_key k = true -> fst (step e cx p s (ODatetime k)) = p.
   Proof.
     unfold is_clock_key. cbn [Isolation.step]. intros H.
     destruct (String.eqb k "now"); [reflexivity|]. cbn [orb] in H.
     destruct (String.eqb k "today"); [reflexivity|]. cbn [orb] in H. rewrite H. reflexivity.
   Qed.
 
+  (* ---------------------------------------------------------------- every exit path restores *)
+
+  (* Working directory, search path and environment after a run are those before it, for every
+     recipe, every continuation, every criterion - and so on every exit path: the run may end
+     normally, with a DataGenError or with any other exception, at any operation. *)
+  Theorem run_restores_ambient p e r : ambient (fst (run p e r)) = ambient p.
+  Proof.
+    unfold Isolation.run. pose proof (pre_execute_frame p e r) as F. cbn zeta in F.
+    destruct (pre_execute p e r) as [p1 [u|er]]; cbn [fst] in *; destruct F as (_ & _ & _ & _ & _ & G & _).
+    - pose proof (iterate_frame e (mkCtx (effective_version e r) (r_dir r)) (r_crit r) (r_ops r)
+                                (iter_fuel (r_crit r)) (set_rowhist p1 (Some [])) (init_rstate (r_cont r))) as H.
+      cbn zeta in H. destruct H as (A & _). rewrite A. exact G.
+    - exact G.
+  Qed.
+
+  Lemma run_seq_restores_ambient l : forall p, ambient (fst (run_seq p l)) = ambient p.
+  Proof.
+    induction l as [|[e r] l IH]; intros p; cbn [Isolation.run_seq fst]; auto.
+    pose proof (run_restores_ambient p e r) as H. destruct (run p e r) as [p1 o]. cbn [fst] in H.
+    specialize (IH p1). destruct (run_seq p1 l) as [p2 os]. cbn [fst] in *. congruence.
+  Qed.
+
   (* ---------------------------------------------------------------- noninterference *)
+
+  Lemma step_rowhist e cx p s o :
+    p_rowhist (fst (step e cx p s o)) =
+    match o with
+    | ORow t => match p_rowhist p with Some h => Some ((t, last_id t s + 1) :: h) | None => None end
+    | _ => p_rowhist p
+    end.
+  Proof.
+    destruct o; cbn [Isolation.step].
+    - destruct (p_rowhist p) eqn:E; cbn [fst set_rowhist p_rowhist]; auto.
+    - reflexivity.
+    - destruct (gen_find g (rs_gens s)) as [[c i]|]; reflexivity.
+    - destruct (lru_call _ _ _ _); reflexivity.
+    - dt_branches k; try reflexivity. destruct (lru_call _ _ _ _); reflexivity.
+    - destruct (p_rowhist p) eqn:E; [destruct (existsb _ _)|]; cbn [fst]; auto.
+    - reflexivity.
+    - reflexivity.
+    - destruct (last_id table s =? n); reflexivity.
+    - destruct (assoc_find site (rs_states s)); [reflexivity|]. destruct (lru_call _ _ _ _); reflexivity.
+    - destruct (assoc_find site (rs_states s)); [reflexivity|].
+      pose proof (with_chdir_restores (match c_dir cx with Some d => d | None => p_cwd p end) p file) as W.
+      destruct (Isolation.with_chdir _ _ _ _ _) as [p' [v|er]]; cbn [fst] in *; subst p'; reflexivity.
+  Qed.
+
+  Lemma step_uid e cx p s o :
+    p_uid (fst (step e cx p s o)) =
+    match o with
+    | OUid g => match gen_find g (rs_gens s) with Some _ => p_uid p | None => p_uid p + 1 end
+    | _ => p_uid p
+    end.
+  Proof.
+    destruct o; cbn [Isolation.step].
+    - destruct (p_rowhist p); reflexivity.
+    - reflexivity.
+    - destruct (gen_find g (rs_gens s)) as [[c i]|]; reflexivity.
+    - destruct (lru_call _ _ _ _); reflexivity.
+    - dt_branches k; try reflexivity. destruct (lru_call _ _ _ _); reflexivity.
+    - destruct (p_rowhist p); [destruct (existsb _ _)|]; reflexivity.
+    - reflexivity.
+    - reflexivity.
+    - destruct (last_id table s =? n); reflexivity.
+    - destruct (assoc_find site (rs_states s)); [reflexivity|]. destruct (lru_call _ _ _ _); reflexivity.
+    - destruct (assoc_find site (rs_states s)); [reflexivity|].
+      pose proof (with_chdir_restores (match c_dir cx with Some d => d | None => p_cwd p end) p file) as W.
+      destruct (Isolation.with_chdir _ _ _ _ _) as [p' [v|er]]; cbn [fst] in *; subst p'; reflexivity.
+  Qed.
+
+  (* what the block reads is the file as seen from the directory it changed to *)
+  Lemma with_chdir_value fin d p file : snd (with_chdir fin d p file) = read_file d file.
+  Proof.
+    unfold Isolation.with_chdir. cbn [set_cwd p_cwd]. destruct (read_file d file); reflexivity.
+  Qed.
+
+  (* two process states in which every operation behaves alike (apart from the unique-id counter) *)
+  Definition sim (p1 p2 : proc) : Prop :=
+    coherent p1 /\ coherent p2 /\ p_rowhist p1 = p_rowhist p2 /\ ambient p1 = ambient p2 /\
+    p_app p1 = p_app p2.
 
   (* what two process states must share for a list of operations to behave alike: nothing,
      unless a unique id is drawn - then the context counter *)
   Definition uid_ok (ops : list op) (p1 p2 : proc) : Prop :=
     existsb is_uid_op ops = false \/ p_uid p1 = p_uid p2.
 
-  Lemma step_nonint e ver p1 p2 s o :
-    coherent p1 -> coherent p2 -> p_rowhist p1 = p_rowhist p2 ->
-    (is_uid_op o = false \/ p_uid p1 = p_uid p2) ->
-    snd (step e ver p1 s o) = snd (step e ver p2 s o) /\
-    p_rowhist (fst (step e ver p1 s o)) = p_rowhist (fst (step e ver p2 s o)) /\
-    (p_uid p1 = p_uid p2 -> p_uid (fst (step e ver p1 s o)) = p_uid (fst (step e ver p2 s o))) /\
-    (is_uid_op o = false -> p_uid (fst (step e ver p1 s o)) = p_uid p1 /\
-                            p_uid (fst (step e ver p2 s o)) = p_uid p2).
+  Lemma step_nonint e cx p1 p2 s o :
+    sim p1 p2 -> (is_uid_op o = false \/ p_uid p1 = p_uid p2) ->
+    snd (step e cx p1 s o) = snd (step e cx p2 s o) /\
+    sim (fst (step e cx p1 s o)) (fst (step e cx p2 s o)).
   Proof.
-    intros [Hd1 Ht1] [Hd2 Ht2] Hr Ho. destruct o; cbn [Isolation.step is_uid_op] in *.
-    - rewrite <- Hr. destruct (p_rowhist p1) eqn:E; cbn [fst snd set_rowhist p_rowhist p_uid]; splits; auto;
-        try (rewrite E; exact Hr).
-    - cbn [fst snd]. splits; auto.
-    - destruct Ho as [Ho|Ho]; [discriminate|].
-      destruct (gen_find g (rs_gens s)) as [[c i]|]; cbn [fst snd touch_masks draw_context p_rowhist p_uid].
-      + splits; auto; try (intros; discriminate).
-      + rewrite Ho. splits; auto; try (intros; discriminate).
-    - pose proof (lru_call_value date_cache_size parse_d (p_dates p1) k (fun v H => Hd1 k v H)) as V1.
-      pose proof (lru_call_value date_cache_size parse_d (p_dates p2) k (fun v H => Hd2 k v H)) as V2.
-      destruct (lru_call date_cache_size parse_d (p_dates p1) k) as [c1 r1].
-      destruct (lru_call date_cache_size parse_d (p_dates p2) k) as [c2 r2].
-      cbn [snd fst set_dates p_rowhist p_uid] in *. subst r1 r2. splits; auto.
-    - destruct (String.eqb k "now"); [cbn [fst snd]; splits; auto|].
-      destruct (String.eqb k "today"); [cbn [fst snd]; splits; auto|].
-      destruct (is_relative_spec k); [cbn [fst snd]; splits; auto|].
-      pose proof (lru_call_value date_cache_size parse_dt (p_dts p1) k (fun v H => Ht1 k v H)) as V1.
-      pose proof (lru_call_value date_cache_size parse_dt (p_dts p2) k (fun v H => Ht2 k v H)) as V2.
-      destruct (lru_call date_cache_size parse_dt (p_dts p1) k) as [c1 r1].
-      destruct (lru_call date_cache_size parse_dt (p_dts p2) k) as [c2 r2].
-      cbn [snd fst set_dts p_rowhist p_uid] in *. subst r1 r2. splits; auto.
-    - rewrite <- Hr. destruct (p_rowhist p1) eqn:E.
-      + destruct (existsb _ _); cbn [fst snd]; rewrite ?E; splits; auto.
-      + cbn [fst snd]. rewrite E. splits; auto.
-    - cbn [fst snd]. splits; auto.
-    - cbn [fst snd]. splits; auto.
+    intros (C1 & C2 & Hr & Ha & Hp) Ho. split.
+    - destruct C1 as [Hd1 Ht1]. destruct C2 as [Hd2 Ht2].
+      assert (Hcwd : p_cwd p1 = p_cwd p2) by (unfold ambient in Ha; congruence).
+      destruct o; cbn [Isolation.step is_uid_op] in *.
+      + rewrite <- Hr. destruct (p_rowhist p1); reflexivity.
+      + reflexivity.
+      + destruct Ho as [Ho|Ho]; [discriminate|].
+        destruct (gen_find g (rs_gens s)) as [[c i]|]; cbn [snd]; [reflexivity|]. rewrite Ho. reflexivity.
+      + pose proof (lru_call_value date_cache_size parse_d (p_dates p1) k (fun v H => Hd1 k v H)) as V1.
+        pose proof (lru_call_value date_cache_size parse_d (p_dates p2) k (fun v H => Hd2 k v H)) as V2.
+        destruct (lru_call date_cache_size parse_d (p_dates p1) k) as [c1 r1].
+        destruct (lru_call date_cache_size parse_d (p_dates p2) k) as [c2 r2].
+        cbn [snd] in *. subst r1 r2. reflexivity.
+      + destruct (String.eqb k "now"); [reflexivity|].
+        destruct (String.eqb k "today"); [reflexivity|].
+        destruct (is_relative_spec k); [reflexivity|].
+        pose proof (lru_call_value date_cache_size parse_dt (p_dts p1) k (fun v H => Ht1 k v H)) as V1.
+        pose proof (lru_call_value date_cache_size parse_dt (p_dts p2) k (fun v H => Ht2 k v H)) as V2.
+        destruct (lru_call date_cache_size parse_dt (p_dts p1) k) as [c1 r1].
+        destruct (lru_call date_cache_size parse_dt (p_dts p2) k) as [c2 r2].
+        cbn [snd] in *. subst r1 r2. reflexivity.
+      + rewrite <- Hr. destruct (p_rowhist p1); [destruct (existsb _ _)|]; reflexivity.
+      + reflexivity.
+      + reflexivity.
+      + destruct (last_id table s =? n); reflexivity.
+      + destruct (assoc_find site (rs_states s)); [reflexivity|].
+        pose proof (lru_call_value date_cache_size parse_d (p_dates p1) k (fun v H => Hd1 k v H)) as V1.
+        pose proof (lru_call_value date_cache_size parse_d (p_dates p2) k (fun v H => Hd2 k v H)) as V2.
+        destruct (lru_call date_cache_size parse_d (p_dates p1) k) as [c1 r1].
+        destruct (lru_call date_cache_size parse_d (p_dates p2) k) as [c2 r2].
+        cbn [snd] in *. subst r1 r2. reflexivity.
+      + destruct (assoc_find site (rs_states s)); [reflexivity|]. rewrite <- Hcwd.
+        set (d := match c_dir cx with Some d => d | None => p_cwd p1 end).
+        pose proof (with_chdir_value true d p1 file) as V1.
+        pose proof (with_chdir_value true d p2 file) as V2.
+        destruct (Isolation.with_chdir read_file true d p1 file) as [q1 x1].
+        destruct (Isolation.with_chdir read_file true d p2 file) as [q2 x2].
+        cbn [snd] in *. subst x1 x2. destruct (read_file d file); reflexivity.
+    - unfold sim. split; [apply step_coherent; exact C1|]. split; [apply step_coherent; exact C2|].
+      rewrite !step_rowhist.
+      pose proof (step_frame e cx p1 s o) as F1. pose proof (step_frame e cx p2 s o) as F2. cbn zeta in *.
+      destruct F1 as (A1 & _ & B1). destruct F2 as (A2 & _ & B2).
+      split; [destruct o; try exact Hr; rewrite Hr; reflexivity|].
+      split; congruence.
   Qed.
 
-  Lemma exec_nonint e ver ops : forall p1 p2 s,
-    coherent p1 -> coherent p2 -> p_rowhist p1 = p_rowhist p2 -> uid_ok ops p1 p2 ->
-    snd (exec_ops e ver p1 s ops) = snd (exec_ops e ver p2 s ops).
+  Lemma step_uid_same e cx p1 p2 s o :
+    p_uid p1 = p_uid p2 -> p_uid (fst (step e cx p1 s o)) = p_uid (fst (step e cx p2 s o)).
+  Proof. intros H. rewrite !step_uid. destruct o; auto. destruct (gen_find _ _); lia. Qed.
+
+  Lemma exec_nonint e cx ops : forall p1 p2 s,
+    sim p1 p2 -> uid_ok ops p1 p2 ->
+    let r1 := exec_ops e cx p1 s ops in
+    let r2 := exec_ops e cx p2 s ops in
+    snd (fst r1) = snd (fst r2) /\ snd r1 = snd r2 /\ sim (fst (fst r1)) (fst (fst r2)) /\
+    (p_uid p1 = p_uid p2 -> p_uid (fst (fst r1)) = p_uid (fst (fst r2))).
   Proof.
-    induction ops as [|o ops IH]; intros p1 p2 s H1 H2 Hr Hu; cbn [Isolation.exec_ops]; auto.
-    assert (Ho : is_uid_op o = false \/ p_uid p1 = p_uid p2).
-    { destruct Hu as [Hu|Hu]; [left|right; exact Hu]. cbn [existsb] in Hu.
-      apply Bool.orb_false_iff in Hu. tauto. }
-    destruct (step_nonint e ver p1 p2 s o H1 H2 Hr Ho) as (Hs & Hr' & Hsame & Hkeep).
-    pose proof (step_coherent e ver p1 s o H1) as C1.
-    pose proof (step_coherent e ver p2 s o H2) as C2.
-    assert (Hu' : uid_ok ops (fst (step e ver p1 s o)) (fst (step e ver p2 s o))).
-    { destruct Hu as [Hu|Hu]; [left|right; auto].
-      cbn [existsb] in Hu. apply Bool.orb_false_iff in Hu. tauto. }
-    destruct (step e ver p1 s o) as [q1 x1]. destruct (step e ver p2 s o) as [q2 x2].
-    cbn [fst snd] in *. subst x2. destruct x1 as [[s' b]|er]; cbn [snd]; auto.
-    specialize (IH q1 q2 s' C1 C2 Hr' Hu').
-    destruct (exec_ops e ver q1 s' ops) as [r1 o1]. destruct (exec_ops e ver q2 s' ops) as [r2 o2].
-    cbn [snd] in *. subst o2. reflexivity.
+    induction ops as [|o ops IH]; intros p1 p2 s Hs Hu; cbn zeta; cbn [Isolation.exec_ops].
+    - cbn [fst snd]. splits; auto.
+    - assert (Ho : is_uid_op o = false \/ p_uid p1 = p_uid p2).
+      { destruct Hu as [Hu|Hu]; [left|right; exact Hu]. cbn [existsb] in Hu.
+        apply Bool.orb_false_iff in Hu. tauto. }
+      destruct (step_nonint e cx p1 p2 s o Hs Ho) as (Hsnd & Hsim).
+      pose proof (step_uid_same e cx p1 p2 s o) as Hsame.
+      assert (Hu' : uid_ok ops (fst (step e cx p1 s o)) (fst (step e cx p2 s o))).
+      { destruct Hu as [Hu|Hu]; [left|right; auto].
+        cbn [existsb] in Hu. apply Bool.orb_false_iff in Hu. tauto. }
+      destruct (step e cx p1 s o) as [q1 x1]. destruct (step e cx p2 s o) as [q2 x2].
+      cbn [fst snd] in *. subst x2. destruct x1 as [[s' b]|er]; cbn [fst snd]; [|splits; auto].
+      specialize (IH q1 q2 s' Hsim Hu'). cbn zeta in IH.
+      destruct (exec_ops e cx q1 s' ops) as [[r1 t1] o1]. destruct (exec_ops e cx q2 s' ops) as [[r2 t2] o2].
+      cbn [fst snd] in *. destruct IH as (A & B & C & D). subst t2 o2. splits; auto.
   Qed.
 
-  (* Noninterference.  For the same inputs (recipe, clock, application options) the outcome of
-     a run is the same in any two coherent process states - for EVERY recipe if the two states
-     agree on the unique-id context counter, and without any condition on the states if the
-     recipe draws no unique id.  (Clock keys make the outcome depend on the clock input [e],
-     not on the process.) *)
+  Lemma sim_set_app p1 p2 a : sim p1 p2 -> sim (set_app p1 a) (set_app p2 a).
+  Proof.
+    intros (C1 & C2 & Hr & Ha & _). unfold sim. splits; auto using coherent_set_app.
+  Qed.
+
+  Lemma iterate_nonint e cx c body fuel : forall p1 p2 s,
+    sim p1 p2 -> uid_ok body p1 p2 ->
+    snd (iterate fuel e cx c body p1 s) = snd (iterate fuel e cx c body p2 s).
+  Proof.
+    induction fuel as [|f IH]; intros p1 p2 s Hs Hu; cbn [Isolation.iterate snd]; auto.
+    pose proof (exec_nonint e cx body p1 p2 s Hs Hu) as H. cbn zeta in H.
+    destruct (exec_ops e cx p1 s body) as [[q1 s1] o1]. destruct (exec_ops e cx p2 s body) as [[q2 s2] o2].
+    cbn [fst snd] in H. destruct H as (A & B & C & D). subst s2 o2.
+    destruct (o_err o1); cbn [snd]; auto.
+    assert (Happ : p_app q1 = p_app q2) by (destruct C as (_ & _ & _ & _ & X); exact X).
+    rewrite <- Happ.
+    destruct (end_of_iteration c s1 (p_app q1)) as [a [[|]|er]]; cbn [snd]; auto.
+    assert (Hu' : uid_ok body (set_app q1 a) (set_app q2 a)).
+    { destruct Hu as [Hu|Hu]; [left; exact Hu|right]. cbn [set_app p_uid]. auto. }
+    specialize (IH (set_app q1 a) (set_app q2 a) s1 (sim_set_app _ _ a C) Hu').
+    destruct (iterate f e cx c body (set_app q1 a) s1) as [r1 x1].
+    destruct (iterate f e cx c body (set_app q2 a) s1) as [r2 x2].
+    cbn [snd] in *. subst x2. reflexivity.
+  Qed.
+
+  (* the parse stage reads the search path, the working directory, HOME - and, for a recipe that
+     names local plugin modules, the import cache *)
+  Lemma resolve_all_nonint ms : forall p1 p2,
+    p_path p1 = p_path p2 -> p_modules p1 = p_modules p2 ->
+    snd (resolve_all p1 ms) = snd (resolve_all p2 ms) /\
+    p_modules (fst (resolve_all p1 ms)) = p_modules (fst (resolve_all p2 ms)).
+  Proof.
+    induction ms as [|m ms IH]; intros p1 p2 Hp Hm; cbn [Isolation.resolve_all]; [cbn; auto|].
+    rewrite <- Hm, <- Hp.
+    destruct (existsb (String.eqb m) (p_modules p1)) eqn:E; [apply IH; auto|].
+    destruct (find_on_path load_plugin (p_path p1) m) as [[|]|er]; cbn [fst snd]; auto.
+    apply IH; unfold add_module; cbn [p_path p_modules]; auto. rewrite <- Hm, E. reflexivity.
+  Qed.
+
+  Lemma pre_execute_nonint p1 p2 e r :
+    ambient p1 = ambient p2 ->
+    (no_plugins r = true \/ p_modules p1 = p_modules p2) ->
+    snd (pre_execute p1 e r) = snd (pre_execute p2 e r).
+  Proof.
+    intros Ha Hm. unfold Isolation.pre_execute.
+    set (q1 := if e_new_app e then set_app p1 app0 else p1).
+    set (q2 := if e_new_app e then set_app p2 app0 else p2).
+    assert (Ha' : ambient q1 = ambient q2) by (unfold q1, q2; destruct (e_new_app e); exact Ha).
+    assert (Hm' : no_plugins r = true \/ p_modules q1 = p_modules q2)
+      by (unfold q1, q2; destruct (e_new_app e); exact Hm).
+    clearbody q1 q2.
+    assert (Hw : snd (with_plugin_path true q1 r) = snd (with_plugin_path true q2 r)).
+    { unfold Isolation.with_plugin_path.
+      assert (Hsp : search_path q1 (r_dir r) = search_path q2 (r_dir r)).
+      { unfold search_path. unfold ambient in Ha'. injection Ha' as -> -> ->. reflexivity. }
+      destruct Hm' as [Hn|Hm'].
+      - unfold no_plugins in Hn. destruct (r_plugins r); [|discriminate]. reflexivity.
+      - pose proof (resolve_all_nonint (r_plugins r) (set_path q1 (search_path q1 (r_dir r)))
+                                       (set_path q2 (search_path q2 (r_dir r)))) as H.
+        cbn [set_path p_path p_modules] in H. specialize (H Hsp Hm'). destruct H as [H _].
+        destruct (resolve_all (set_path q1 _) _) as [a1 [u1|e1]];
+          destruct (resolve_all (set_path q2 _) _) as [a2 [u2|e2]]; cbn [snd] in *; congruence. }
+    destruct (with_plugin_path true q1 r) as [a1 x1]. destruct (with_plugin_path true q2 r) as [a2 x2].
+    cbn [snd] in Hw. subst x2. destruct x1 as [u|er]; [|reflexivity].
+    destruct (r_stage r); try reflexivity.
+    destruct (r_crit r) as [n|t n]; [reflexivity|]. destruct (existsb _ _); reflexivity.
+  Qed.
+
+  (* Noninterference.  For the same inputs (recipe, continuation file, stopping criterion, clock,
+     application options) the outcome of a run is the same in any two coherent process states with
+     the same working directory, search path and HOME
+       - if the two states agree on the unique-id context counter, or the recipe draws no unique id;
+       - if the application object is new for this run, or is in the same state in both;
+       - if the recipe names no local plugin module, or both processes imported the same ones. *)
   Theorem noninterference p1 p2 e r :
-    coherent p1 -> coherent p2 -> (no_uid r = true \/ p_uid p1 = p_uid p2) ->
+    coherent p1 -> coherent p2 -> ambient p1 = ambient p2 ->
+    (no_uid r = true \/ p_uid p1 = p_uid p2) ->
+    (e_new_app e = true \/ p_app p1 = p_app p2) ->
+    (no_plugins r = true \/ p_modules p1 = p_modules p2) ->
     snd (run p1 e r) = snd (run p2 e r).
   Proof.
-    intros H1 H2 Hn. unfold Isolation.run. destruct (r_stage r); cbn [snd]; auto.
-    apply exec_nonint.
-    - destruct H1 as [A B]. split; assumption.
-    - destruct H2 as [A B]. split; assumption.
-    - reflexivity.
-    - destruct Hn as [Hn|Hn]; [left|right; exact Hn].
-      unfold no_uid in Hn. apply Bool.negb_true_iff in Hn. exact Hn.
+    intros C1 C2 Ha Hn Happ Hm. unfold Isolation.run.
+    pose proof (pre_execute_nonint p1 p2 e r Ha Hm) as Hpre.
+    pose proof (pre_execute_frame p1 e r) as F1. pose proof (pre_execute_frame p2 e r) as F2.
+    cbn zeta in F1, F2.
+    destruct (pre_execute p1 e r) as [q1 x1]. destruct (pre_execute p2 e r) as [q2 x2].
+    cbn [fst snd] in *. subst x2. destruct x1 as [u|er]; cbn [snd]; [|reflexivity].
+    destruct F1 as (U1 & D1 & T1 & _ & _ & A1 & P1 & _). destruct F2 as (U2 & D2 & T2 & _ & _ & A2 & P2 & _).
+    apply iterate_nonint.
+    - unfold sim. cbn [set_rowhist p_rowhist p_app]. splits.
+      + eapply coherent_caches; [| |exact C1]; cbn; auto.
+      + eapply coherent_caches; [| |exact C2]; cbn; auto.
+      + reflexivity.
+      + unfold ambient in *. cbn [set_rowhist p_cwd p_path p_home]. congruence.
+      + rewrite P1, P2. destruct Happ as [-> | ->]; reflexivity.
+    - destruct Hn as [Hn|Hn]; [left|right].
+      + unfold no_uid in Hn. apply Bool.negb_true_iff in Hn. exact Hn.
+      + cbn [set_rowhist p_uid]. congruence.
   Qed.
 
-  (* ... in particular after any two histories of runs, and compared with a fresh process *)
-  Theorem sequence_independent h1 h2 e r :
-    no_uid r = true -> snd (run (after h1) e r) = snd (run (after h2) e r).
-  Proof. intros Hn. apply noninterference; auto using after_coherent. Qed.
+  (* ---------------------------------------------------------------- histories *)
 
-  Corollary same_as_fresh_process h e r :
-    no_uid r = true -> snd (run (after h) e r) = snd (run proc0 e r).
-  Proof. intros Hn. exact (sequence_independent h [] e r Hn). Qed.
+  Definition plain_job (e : env) (r : recipe) : Prop :=
+    no_uid r = true /\ e_new_app e = true /\ no_plugins r = true.
+
+  (* ... in particular after any two histories of runs, and compared with a fresh process *)
+  Theorem sequence_independent p0 h1 h2 e r :
+    coherent p0 -> plain_job e r ->
+    snd (run (after_from p0 h1) e r) = snd (run (after_from p0 h2) e r).
+  Proof.
+    intros C0 (Hn & Ha & Hp). unfold Isolation.after_from.
+    apply noninterference; auto using run_seq_coherent.
+    rewrite !run_seq_restores_ambient. reflexivity.
+  Qed.
+
+  Corollary same_as_fresh_process p0 h e r :
+    coherent p0 -> plain_job e r -> snd (run (after_from p0 h) e r) = snd (run p0 e r).
+  Proof. intros C0 Hj. exact (sequence_independent p0 h [] e r C0 Hj). Qed.
 
   (* ---------------------------------------------------------------- what a run leaves behind *)
 
-  Lemma step_uid_mono e ver p s o : p_uid p <= p_uid (fst (step e ver p s o)).
-  Proof.
-    destruct o; cbn [Isolation.step].
-    - destruct (p_rowhist p); cbn; lia.
-    - cbn; lia.
-    - destruct (gen_find g (rs_gens s)) as [[c i]|]; cbn; lia.
-    - destruct (lru_call _ _ _ _); cbn; lia.
-    - dt_branches k; try (cbn; lia). destruct (lru_call _ _ _ _); cbn; lia.
-    - destruct (p_rowhist p); [destruct (existsb _ _)|]; cbn; lia.
-    - cbn; lia.
-    - cbn; lia.
-  Qed.
+  Lemma step_uid_mono e cx p s o : p_uid p <= p_uid (fst (step e cx p s o)).
+  Proof. rewrite step_uid. destruct o; try lia. destruct (gen_find _ _); lia. Qed.
 
-  Lemma exec_uid_mono e ver ops : forall p s, p_uid p <= p_uid (fst (exec_ops e ver p s ops)).
+  Lemma exec_uid_mono e cx ops : forall p s, p_uid p <= p_uid (fst (fst (exec_ops e cx p s ops))).
   Proof.
     induction ops as [|o ops IH]; intros p s; cbn [Isolation.exec_ops]; [cbn; lia|].
-    pose proof (step_uid_mono e ver p s o) as H.
-    destruct (step e ver p s o) as [p' [[s' b]|er]]; cbn [fst] in *; auto.
-    specialize (IH p' s'). destruct (exec_ops e ver p' s' ops) as [p'' out]. cbn [fst] in *. lia.
+    pose proof (step_uid_mono e cx p s o) as H.
+    destruct (step e cx p s o) as [p' [[s' b]|er]]; cbn [fst] in *; auto.
+    specialize (IH p' s'). destruct (exec_ops e cx p' s' ops) as [[p'' s''] out]. cbn [fst] in *. lia.
   Qed.
 
-  (* Any run - failing or not - leaves the process coherent and never lowers the unique-id
-     counter.  (The application's options dict is not part of the state any more.) *)
+  Lemma iterate_uid_mono e cx c body fuel : forall p s,
+    p_uid p <= p_uid (fst (iterate fuel e cx c body p s)).
+  Proof.
+    induction fuel as [|f IH]; intros p s; cbn [Isolation.iterate fst]; [lia|].
+    pose proof (exec_uid_mono e cx body p s) as H.
+    destruct (exec_ops e cx p s body) as [[p1 s1] out]. cbn [fst] in H.
+    destruct (o_err out); cbn [fst]; auto.
+    destruct (end_of_iteration c s1 (p_app p1)) as [a [[|]|er]]; cbn [fst set_app p_uid]; auto.
+    specialize (IH (set_app p1 a) s1). cbn [set_app p_uid] in IH.
+    destruct (iterate f e cx c body _ s1) as [p2 out2]. cbn [fst] in *. lia.
+  Qed.
+
+  (* Any run - failing or not - leaves the process coherent, never lowers the unique-id counter,
+     leaves working directory / search path / HOME as they were and only adds to the import cache. *)
   Theorem run_effects p e r :
     let p' := fst (run p e r) in
-    (coherent p -> coherent p') /\ p_uid p <= p_uid p'.
+    (coherent p -> coherent p') /\ p_uid p <= p_uid p' /\ ambient p' = ambient p /\
+    (forall m, In m (p_modules p) -> In m (p_modules p')).
   Proof.
     cbn zeta. splits.
     - apply run_coherent.
-    - unfold Isolation.run. destruct (r_stage r); cbn [fst]; try lia.
-      eapply Z.le_trans; [|apply exec_uid_mono]. cbn [set_rowhist p_uid]. lia.
+    - unfold Isolation.run. pose proof (pre_execute_frame p e r) as F. cbn zeta in F.
+      destruct (pre_execute p e r) as [p1 [u|er]]; cbn [fst] in *; destruct F as (U & _); [|lia].
+      eapply Z.le_trans; [|apply iterate_uid_mono]. cbn [set_rowhist p_uid]. lia.
+    - apply run_restores_ambient.
+    - unfold Isolation.run. pose proof (pre_execute_frame p e r) as F. cbn zeta in F.
+      destruct (pre_execute p e r) as [p1 [u|er]]; cbn [fst] in *;
+        destruct F as (_ & _ & _ & _ & _ & _ & _ & M); [|exact M].
+      pose proof (iterate_frame e (mkCtx (effective_version e r) (r_dir r)) (r_crit r) (r_ops r)
+                                (iter_fuel (r_crit r)) (set_rowhist p1 (Some [])) (init_rstate (r_cont r))) as H.
+      cbn zeta in H. destruct H as (_ & B). rewrite B. exact M.
   Qed.
 
-  (* A failed run does not poison the next one: after a failing run r1 the outcome of a
-     recipe r2 that draws no unique id is what it would have been without r1.
-     (The failure hypothesis is not used: the statement holds for every run r1.) *)
+  (* A failed run does not poison the next one: after a failing run r1 the outcome of a plain job
+     is what it would have been without r1 - whether r1 ended with a DataGenError or with any other
+     exception.  (The failure hypothesis is not used: the statement holds for every run r1.) *)
   Theorem failed_run_harmless p e1 r1 e2 r2 :
-    coherent p -> o_err (snd (run p e1 r1)) <> None -> no_uid r2 = true ->
+    coherent p -> o_err (snd (run p e1 r1)) <> None -> plain_job e2 r2 ->
     snd (run (fst (run p e1 r1)) e2 r2) = snd (run p e2 r2).
-  Proof. intros H _ Hn. apply noninterference; auto using run_coherent. Qed.
+  Proof.
+    intros H _ (Hn & Ha & Hp). apply noninterference; auto using run_coherent.
+    apply run_restores_ambient.
+  Qed.
 
-  (* ---------------------------------------------------------------- ids start at 1 *)
+  (* The instance: states that cannot be told apart = coherent caches, same working directory /
+     search path / HOME; admissible = a plain job.  [restores] is run_coherent + run_restores_ambient,
+     [reads_only_R] is noninterference. *)
+  Definition indist (p1 p2 : proc) : Prop := coherent p1 /\ coherent p2 /\ ambient p1 = ambient p2.
 
-  Lemma Zseq_length a n : length (Zseq a n) = n.
-  Proof. revert a. induction n; intros a; cbn [Zseq length]; auto. Qed.
+  Lemma run_restores_indist p (i : env * recipe) : indist p p -> indist (fst (run p (fst i) (snd i))) p.
+  Proof.
+    intros (C & _ & _). unfold indist. splits; auto using run_coherent. apply run_restores_ambient.
+  Qed.
+
+  Theorem history_irrelevant p0 h e r :
+    coherent p0 -> plain_job e r ->
+    snd (run (gafter proc (env * recipe) outcome (fun p i => run p (fst i) (snd i)) p0 h) e r) = snd (run p0 e r).
+  Proof.
+    intros C0 Hj.
+    apply (restoring_runs_independent proc (env * recipe) outcome (fun p i => run p (fst i) (snd i)) indist
+             (fun i => plain_job (fst i) (snd i))) with (i := (e, r)); auto.
+    - intros a b (A & B & C). unfold indist. auto.
+    - intros a b c (A & B & C) (D & E & F). unfold indist. splits; auto. congruence.
+    - intros s1 s2 i (Hn & Ha & Hp) (A & B & C). apply noninterference; auto.
+    - apply run_restores_indist.
+    - unfold indist. auto.
+  Qed.
+
+  (* ---------------------------------------------------------------- ids start at 1 / continue *)
 
   Lemma ids_of_app t a b : ids_of t (a ++ b) = ids_of t a ++ ids_of t b.
   Proof.
@@ -362,50 +795,281 @@ Section P.
     destruct x; auto. destruct (String.eqb t table); cbn [app]; congruence.
   Qed.
 
-  Lemma step_ids e ver p s o p' s' b t :
-    step e ver p s o = (p', Ok (s', b)) ->
-    (ids_of t b = [] /\ last_id t s' = last_id t s) \/
-    (ids_of t b = [last_id t s + 1] /\ last_id t s' = last_id t s + 1).
+  Lemma step_ids e cx p s o p' s' b t :
+    step e cx p s o = (p', Ok (s', b)) ->
+    rs_start s' = rs_start s /\
+    ((ids_of t b = [] /\ last_id t s' = last_id t s) \/
+     (ids_of t b = [last_id t s + 1] /\ last_id t s' = last_id t s + 1)).
   Proof.
     destruct o; cbn [Isolation.step]; intros H.
-    - injection H as _ <- <-. cbn [ids_of].
+    - injection H as _ <- <-. cbn [ids_of rs_start]. split; [reflexivity|].
       destruct (String.eqb t table) eqn:E.
       + apply String.eqb_eq in E. subst table. right. split; [reflexivity|].
         unfold last_id. cbn [rs_ids]. rewrite assoc_find_set_same. reflexivity.
       + left. split; [reflexivity|].
         unfold last_id. cbn [rs_ids]. rewrite assoc_find_set_other by exact E. reflexivity.
-    - injection H as _ <- <-. left. auto.
-    - destruct (gen_find g (rs_gens s)) as [[c i]|]; injection H as _ <- <-; left; auto.
-    - destruct (lru_call _ _ _ _) as [c [v|]]; [|discriminate]. injection H as _ <- <-. left; auto.
-    - dt_branches k; try (injection H as _ <- <-; left; auto).
-      destruct (lru_call _ _ _ _) as [c [v|]]; [|discriminate]. injection H as _ <- <-. left; auto.
+    - injection H as _ <- <-. split; [reflexivity|]. left. auto.
+    - destruct (gen_find g (rs_gens s)) as [[c i]|]; injection H as _ <- <-; (split; [reflexivity|]); left; auto.
+    - destruct (lru_call _ _ _ _) as [c [v|]]; [|discriminate]. injection H as _ <- <-. split; [reflexivity|]. left; auto.
+    - dt_branches k; try (injection H as _ <- <-; split; [reflexivity|]; left; auto).
+      destruct (lru_call _ _ _ _) as [c [v|]]; [|discriminate]. injection H as _ <- <-. split; [reflexivity|]. left; auto.
     - destruct (p_rowhist p); [|discriminate]. destruct (existsb _ _); [|discriminate].
-      injection H as _ <- <-. left; auto.
-    - injection H as _ <- <-. left; auto.
+      injection H as _ <- <-. split; [reflexivity|]. left; auto.
+    - injection H as _ <- <-. split; [reflexivity|]. left; auto.
     - discriminate.
+    - destruct (last_id table s =? n); [discriminate|]. injection H as _ <- <-. split; [reflexivity|]. left; auto.
+    - destruct (assoc_find site (rs_states s)); [injection H as _ <- <-; split; [reflexivity|]; left; auto|].
+      destruct (lru_call _ _ _ _) as [c [v|]]; [|discriminate]. injection H as _ <- <-. split; [reflexivity|]. left; auto.
+    - destruct (assoc_find site (rs_states s)); [injection H as _ <- <-; split; [reflexivity|]; left; auto|].
+      destruct (Isolation.with_chdir _ _ _ _ _) as [q [v|er]]; [|discriminate].
+      injection H as _ <- <-. split; [reflexivity|]. left; auto.
   Qed.
 
-  Lemma exec_ids e ver t ops : forall p s,
-    let out := snd (exec_ops e ver p s ops) in
-    ids_of t (o_obs out) = Zseq (last_id t s + 1) (length (ids_of t (o_obs out))).
+  Lemma start_id_same t s s' : rs_start s' = rs_start s -> start_id t s' = start_id t s.
+  Proof. unfold start_id. intros ->. reflexivity. Qed.
+
+  Lemma exec_ids e cx t ops : forall p s,
+    let r := exec_ops e cx p s ops in
+    let ids := ids_of t (o_obs (snd r)) in
+    ids = Zseq (last_id t s + 1) (length ids) /\
+    (o_err (snd r) = None ->
+     last_id t (snd (fst r)) = last_id t s + Z.of_nat (length ids) /\ rs_start (snd (fst r)) = rs_start s).
   Proof.
-    induction ops as [|o ops IH]; intros p s; cbn zeta; cbn [Isolation.exec_ops]; [reflexivity|].
-    destruct (step e ver p s o) as [p' [[s' b]|er]] eqn:E; [|reflexivity].
-    specialize (IH p' s'). cbn zeta in IH.
-    destruct (exec_ops e ver p' s' ops) as [p'' out]. cbn [snd o_obs] in *.
-    rewrite ids_of_app.
-    destruct (step_ids e ver p s o p' s' b t E) as [[Hb Hl]|[Hb Hl]]; rewrite Hb; cbn [app length].
-    - rewrite Hl in IH. exact IH.
-    - cbn [Zseq]. f_equal. rewrite Hl in IH. exact IH.
+    induction ops as [|o ops IH]; intros p s; cbn zeta; cbn [Isolation.exec_ops].
+    - cbn [fst snd o_obs ids_of length Zseq]. split; [reflexivity|]. intros _. split; [lia|reflexivity].
+    - destruct (step e cx p s o) as [p' [[s' b]|er]] eqn:E; [|cbn; split; [reflexivity|discriminate]].
+      specialize (IH p' s'). cbn zeta in IH.
+      destruct (exec_ops e cx p' s' ops) as [[p'' s''] out]. cbn [fst snd o_obs o_err] in *.
+      rewrite ids_of_app. destruct IH as (I1 & I2).
+      destruct (step_ids e cx p s o p' s' b t E) as (Hst & [[Hb Hl]|[Hb Hl]]); rewrite Hb; cbn [app length].
+      + rewrite Hl in I1, I2. split; [exact I1|]. intros Hn. destruct (I2 Hn) as (A & B). split; congruence.
+      + cbn [Zseq]. rewrite Hl in I1, I2. split; [f_equal; exact I1|].
+        intros Hn. destruct (I2 Hn) as (A & B). split; [lia|congruence].
   Qed.
 
-  (* Whatever ran before in the process, the ids a run gives to the rows of a table are
-     1, 2, 3, ... (by construction: the IdManager is created by the run). *)
-  Theorem ids_start_at_one p e r t :
+  Lemma iterate_ids e cx c body t fuel : forall p s,
+    let out := snd (iterate fuel e cx c body p s) in
+    let ids := ids_of t (o_obs out) in
+    ids = Zseq (last_id t s + 1) (length ids) /\
+    (o_err out = None -> forall n, c = CTable t n ->
+       start_id t s + n - 1 <= last_id t s + Z.of_nat (length ids)).
+  Proof.
+    induction fuel as [|f IH]; intros p s; cbn zeta; cbn [Isolation.iterate snd].
+    - cbn. split; [reflexivity|discriminate].
+    - pose proof (exec_ids e cx t body p s) as H. cbn zeta in H.
+      destruct (exec_ops e cx p s body) as [[p1 s1] out]. cbn [fst snd] in H. destruct H as (H1 & H2).
+      destruct (o_err out) as [er|] eqn:Eo; cbn [snd].
+      + split; [exact H1|]. rewrite Eo. discriminate.
+      + destruct (H2 eq_refl) as (Hl & Hst).
+        destruct (end_of_iteration c s1 (p_app p1)) as [a [[|]|er]] eqn:Ee; cbn [snd o_obs o_err].
+        * split; [exact H1|]. intros _ n ->. cbn [Isolation.end_of_iteration] in Ee.
+          destruct (last_id t s1 =? _); [discriminate|]. injection Ee as _ Ee.
+          apply Z.leb_le in Ee. rewrite (start_id_same t s s1 Hst) in Ee. lia.
+        * specialize (IH (set_app p1 a) s1). cbn zeta in IH.
+          destruct (iterate f e cx c body (set_app p1 a) s1) as [p2 out2]. cbn [snd o_obs o_err] in *.
+          destruct IH as (J1 & J2). rewrite ids_of_app, app_length.
+          split.
+          -- rewrite Zseq_app. rewrite <- H1. f_equal.
+             replace (last_id t s + 1 + Z.of_nat (length (ids_of t (o_obs out)))) with (last_id t s1 + 1) by lia.
+             exact J1.
+          -- intros Hn n Hc. specialize (J2 Hn n Hc). rewrite (start_id_same t s s1 Hst) in J2. lia.
+        * split; [exact H1|]. discriminate.
+  Qed.
+
+  (* last id of a table according to the continuation file of a job (0: fresh run, or no such table) *)
+  Definition cont_last (t : string) (r : recipe) : Z := last_id t (init_rstate (r_cont r)).
+
+  Lemma init_start t cont : start_id t (init_rstate cont) = last_id t (init_rstate cont) + 1.
+  Proof.
+    destruct cont as [ids|]; [|reflexivity].
+    unfold start_id, last_id, init_rstate. cbn [rs_start rs_ids].
+    induction ids as [|[k v] ids IH]; cbn [map assoc_find fst snd]; [reflexivity|].
+    destruct (String.eqb t k); auto.
+  Qed.
+
+  (* Whatever ran before in the process and whatever the application object went through, the ids
+     a run gives to the rows of a table are last+1, last+2, ... where last is the table's entry in
+     the run's OWN continuation file (0 without one: ids start at 1). *)
+  Theorem ids_continue p e r t :
+    let ids := ids_of t (o_obs (snd (run p e r))) in ids = Zseq (cont_last t r + 1) (length ids).
+  Proof.
+    cbn zeta. unfold Isolation.run. destruct (pre_execute p e r) as [p1 [u|er]]; [|reflexivity].
+    apply (iterate_ids e _ (r_crit r) (r_ops r) t).
+  Qed.
+
+  Corollary ids_start_at_one p e r t :
+    r_cont r = None ->
     let ids := ids_of t (o_obs (snd (run p e r))) in ids = Zseq 1 (length ids).
   Proof.
-    cbn zeta. unfold Isolation.run. destruct (r_stage r); cbn [snd o_obs ids_of length Zseq]; auto.
-    apply (exec_ids e _ t (r_ops r) _ rs0).
+    intros Hc. pose proof (ids_continue p e r t) as H. cbn zeta in *.
+    unfold cont_last in H. rewrite Hc in H. exact H.
+  Qed.
+
+  (* `target_number (n, t)`: a run that ends normally has made at least n rows of t, counted from
+     the run's own continuation file - in every process state and for every application object. *)
+  Theorem target_reached p e r t n :
+    r_crit r = CTable t n -> o_err (snd (run p e r)) = None ->
+    n <= Z.of_nat (length (ids_of t (o_obs (snd (run p e r))))).
+  Proof.
+    intros Hc. unfold Isolation.run. destruct (pre_execute p e r) as [p1 [u|er]]; [|discriminate].
+    intros Hn.
+    pose proof (iterate_ids e (mkCtx (effective_version e r) (r_dir r)) (r_crit r) (r_ops r) t
+                            (iter_fuel (r_crit r)) (set_rowhist p1 (Some [])) (init_rstate (r_cont r))) as H.
+    cbn zeta in H. destruct H as (_ & H). specialize (H Hn n Hc). rewrite init_start in H. lia.
+  Qed.
+
+  (* ---------------------------------------------------------------- the loop ends within its fuel *)
+
+  Lemma iterate_stable_reps e cx n body : forall f1 f2 p s,
+    (Z.to_nat (n - a_reps (p_app p)) <= f1)%nat -> (1 <= f1)%nat ->
+    (Z.to_nat (n - a_reps (p_app p)) <= f2)%nat -> (1 <= f2)%nat ->
+    iterate f1 e cx (CReps n) body p s = iterate f2 e cx (CReps n) body p s.
+  Proof.
+    induction f1 as [|g1 IH]; intros f2 p s A1 B1 A2 B2; [lia|].
+    destruct f2 as [|g2]; [lia|]. cbn [Isolation.iterate].
+    pose proof (exec_frame e cx body p s) as F. cbn zeta in F.
+    destruct (exec_ops e cx p s body) as [[p1 s1] out]. cbn [fst] in F. destruct F as (_ & _ & Fa).
+    destruct (o_err out); [reflexivity|].
+    cbn [Isolation.end_of_iteration]. destruct (n <=? a_reps (p_app p1) + 1) eqn:E; [reflexivity|].
+    apply Z.leb_gt in E. rewrite Fa in *.
+    rewrite (IH g2); [reflexivity| | | |]; cbn [set_app p_app a_reps]; lia.
+  Qed.
+
+  Lemma iterate_stable_table e cx t n body : forall f1 f2 p s,
+    0 < a_reps (p_app p) -> a_start (p_app p) = last_id t s ->
+    (Z.to_nat (start_id t s + n - 1 - last_id t s) <= f1)%nat -> (1 <= f1)%nat ->
+    (Z.to_nat (start_id t s + n - 1 - last_id t s) <= f2)%nat -> (1 <= f2)%nat ->
+    iterate f1 e cx (CTable t n) body p s = iterate f2 e cx (CTable t n) body p s.
+  Proof.
+    induction f1 as [|g1 IH]; intros f2 p s I1 I2 A1 B1 A2 B2; [lia|].
+    destruct f2 as [|g2]; [lia|]. cbn [Isolation.iterate].
+    pose proof (exec_frame e cx body p s) as F. cbn zeta in F.
+    pose proof (exec_ids e cx t body p s) as Hi. cbn zeta in Hi.
+    destruct (exec_ops e cx p s body) as [[p1 s1] out]. cbn [fst snd] in *. destruct F as (_ & _ & Fa).
+    destruct Hi as (_ & Hi).
+    destruct (o_err out); [reflexivity|]. destruct (Hi eq_refl) as (Hl & Hst).
+    cbn [Isolation.end_of_iteration]. rewrite Fa.
+    assert (E0 : (a_reps (p_app p) =? 0) = false) by (apply Z.eqb_neq; lia). rewrite E0.
+    destruct (last_id t s1 =? a_start (p_app p)) eqn:E1; [reflexivity|]. apply Z.eqb_neq in E1.
+    rewrite (start_id_same t s s1 Hst).
+    destruct (start_id t s + n - 1 <=? last_id t s1) eqn:E2; [reflexivity|]. apply Z.leb_gt in E2.
+    rewrite (IH g2); [reflexivity| | | | | |]; cbn [set_app p_app a_reps a_start];
+      rewrite ?(start_id_same t s s1 Hst); lia.
+  Qed.
+
+  Lemma iterate_stable_table_first e cx t n body f1 f2 p s :
+    0 <= a_reps (p_app p) -> start_id t s = last_id t s + 1 ->
+    (Z.to_nat n + 2 <= f1)%nat -> (Z.to_nat n + 2 <= f2)%nat ->
+    iterate f1 e cx (CTable t n) body p s = iterate f2 e cx (CTable t n) body p s.
+  Proof.
+    intros I1 I2 A1 A2. destruct f1 as [|g1]; [lia|]. destruct f2 as [|g2]; [lia|]. cbn [Isolation.iterate].
+    pose proof (exec_frame e cx body p s) as F. cbn zeta in F.
+    pose proof (exec_ids e cx t body p s) as Hi. cbn zeta in Hi.
+    destruct (exec_ops e cx p s body) as [[p1 s1] out]. cbn [fst snd] in *. destruct F as (_ & _ & Fa).
+    destruct Hi as (_ & Hi).
+    destruct (o_err out); [reflexivity|]. destruct (Hi eq_refl) as (Hl & Hst).
+    cbn [Isolation.end_of_iteration]. rewrite Fa. rewrite (start_id_same t s s1 Hst).
+    destruct (last_id t s1 =? _) eqn:E1; [reflexivity|].
+    destruct (start_id t s + n - 1 <=? last_id t s1) eqn:E2; [reflexivity|]. apply Z.leb_gt in E2.
+    rewrite (iterate_stable_table e cx t n body g1 g2); [reflexivity| | | | | |];
+      cbn [set_app p_app a_reps a_start]; rewrite ?(start_id_same t s s1 Hst); lia.
+  Qed.
+
+  (* The fuel of the loop is never what ends a run: with any larger number of iterations allowed
+     the run is exactly the same - for every job, every process state, and every application object
+     whose rep_count is not negative (it starts at 0 and only goes up). *)
+  Theorem fuel_is_enough extra p e r :
+    (e_new_app e = true \/ 0 <= a_reps (p_app p)) ->
+    run_with parse_d parse_dt read_file load_plugin (iter_fuel (r_crit r) + extra) p e r = run p e r.
+  Proof.
+    intros Ha. unfold Isolation.run_with, Isolation.run.
+    pose proof (pre_execute_frame p e r) as F. cbn zeta in F.
+    destruct (pre_execute p e r) as [p1 [u|er]]; [|reflexivity]. cbn [fst] in F.
+    destruct F as (_ & _ & _ & _ & _ & _ & Fa & _).
+    assert (Hr : 0 <= a_reps (p_app (set_rowhist p1 (Some [])))).
+    { cbn [set_rowhist p_app]. rewrite Fa. destruct Ha as [-> | Ha]; [cbn; lia|].
+      destruct (e_new_app e); [cbn; lia|exact Ha]. }
+    unfold iter_fuel. destruct (r_crit r) as [n|t n]; cbn [crit_n].
+    - apply iterate_stable_reps; lia.
+    - apply iterate_stable_table_first; [exact Hr|apply init_start|lia|lia].
+  Qed.
+
+  (* ---------------------------------------------------------------- the loop is an unrolling *)
+
+  (* k iterations written out *)
+  Fixpoint flat (k : nat) (body : list op) : list op :=
+    match k with O => [] | S k' => body ++ flat k' body end.
+
+  Lemma exec_ops_app e cx l1 l2 : forall p s,
+    exec_ops e cx p s (l1 ++ l2) =
+    let '(p1, s1, o1) := exec_ops e cx p s l1 in
+    match o_err o1 with
+    | Some _ => (p1, s1, o1)
+    | None => let '(p2, s2, o2) := exec_ops e cx p1 s1 l2 in
+              (p2, s2, mkOut (o_obs o1 ++ o_obs o2) (o_err o2))
+    end.
+  Proof.
+    induction l1 as [|o l1 IH]; intros p s; cbn [app Isolation.exec_ops].
+    - cbn [o_err o_obs app]. destruct (exec_ops e cx p s l2) as [[p2 s2] [ob er]]. reflexivity.
+    - destruct (step e cx p s o) as [p' [[s' b]|er]]; [|reflexivity].
+      rewrite IH. destruct (exec_ops e cx p' s' l1) as [[p1 s1] [ob1 er1]]. cbn [o_err o_obs].
+      destruct er1; [reflexivity|].
+      destruct (exec_ops e cx p1 s1 l2) as [[p2 s2] o2]. cbn [o_obs o_err]. rewrite app_assoc. reflexivity.
+  Qed.
+
+  (* no operation reads or writes the application object *)
+  Lemma step_set_app e cx p a s o :
+    step e cx (set_app p a) s o = (set_app (fst (step e cx p s o)) a, snd (step e cx p s o)).
+  Proof.
+    destruct o; cbn [Isolation.step set_app p_rowhist p_uid p_dates p_dts p_cwd].
+    - destruct (p_rowhist p); reflexivity.
+    - reflexivity.
+    - destruct (gen_find g (rs_gens s)) as [[c i]|]; reflexivity.
+    - destruct (lru_call _ _ _ _); reflexivity.
+    - dt_branches k; try reflexivity. destruct (lru_call _ _ _ _); reflexivity.
+    - destruct (p_rowhist p); [destruct (existsb _ _)|]; reflexivity.
+    - reflexivity.
+    - reflexivity.
+    - destruct (last_id table s =? n); reflexivity.
+    - destruct (assoc_find site (rs_states s)); [reflexivity|]. destruct (lru_call _ _ _ _); reflexivity.
+    - destruct (assoc_find site (rs_states s)); [reflexivity|].
+      unfold Isolation.with_chdir. cbn [set_cwd set_app p_cwd p_uid p_dates p_dts p_masks p_rowhist p_path p_home p_modules p_app].
+      destruct (read_file _ file); reflexivity.
+  Qed.
+
+  Lemma exec_set_app e cx a ops : forall p s,
+    exec_ops e cx (set_app p a) s ops =
+    let '(q, s', out) := exec_ops e cx p s ops in (set_app q a, s', out).
+  Proof.
+    induction ops as [|o ops IH]; intros p s; cbn [Isolation.exec_ops]; [reflexivity|].
+    rewrite step_set_app. destruct (step e cx p s o) as [p' [[s' b]|er]]; cbn [fst snd]; [|reflexivity].
+    rewrite IH. destruct (exec_ops e cx p' s' ops) as [[q s''] out]. reflexivity.
+  Qed.
+
+  Lemma set_app_idem p a b : set_app (set_app p a) b = set_app p b.
+  Proof. reflexivity. Qed.
+
+  (* Whatever the criterion and the application object: what a run observes and what it does to
+     the process (apart from the application object) is what SOME number of iterations written
+     out one after the other observe and do. *)
+  Lemma iterate_unroll e cx c body fuel : forall p s, exists k,
+    let x := iterate fuel e cx c body p s in
+    let y := exec_ops e cx p s (flat k body) in
+    o_obs (snd x) = o_obs (snd y) /\ set_app (fst x) app0 = set_app (fst (fst y)) app0.
+  Proof.
+    induction fuel as [|f IH]; intros p s; cbn [Isolation.iterate].
+    - exists O. cbn. auto.
+    - destruct (exec_ops e cx p s body) as [[p1 s1] out] eqn:E.
+      destruct (o_err out) as [er|] eqn:Eo.
+      + exists 1%nat. cbn [flat]. rewrite app_nil_r, E. cbn. auto.
+      + destruct (end_of_iteration c s1 (p_app p1)) as [a [[|]|er]].
+        * exists 1%nat. cbn [flat]. rewrite app_nil_r, E. cbn [fst snd]. auto.
+        * destruct (IH (set_app p1 a) s1) as [k Hk]. exists (S k). cbn [flat]. cbn zeta in *.
+          rewrite exec_ops_app, E, Eo. rewrite exec_set_app in Hk.
+          destruct (iterate f e cx c body (set_app p1 a) s1) as [p2 out2].
+          destruct (exec_ops e cx p1 s1 (flat k body)) as [[q s'] o2]. cbn [fst snd o_obs] in *.
+          destruct Hk as (A & B). rewrite A. split; [reflexivity|]. rewrite B. reflexivity.
+        * exists 1%nat. cbn [flat]. rewrite app_nil_r, E. cbn [fst snd o_obs]. auto.
   Qed.
 
   (* ---------------------------------------------------------------- unique ids across runs *)
@@ -422,8 +1086,8 @@ Section P.
   Proof. unfold uid_pairs. rewrite uid_obs_app, map_app. reflexivity. Qed.
 
   (* operations other than OUid: no unique id observed, counter and generators unchanged *)
-  Lemma step_no_uid e ver p s o p' s' b :
-    (forall g, o <> OUid g) -> step e ver p s o = (p', Ok (s', b)) ->
+  Lemma step_no_uid e cx p s o p' s' b :
+    (forall g, o <> OUid g) -> step e cx p s o = (p', Ok (s', b)) ->
     uid_pairs b = [] /\ p_uid p' = p_uid p /\ rs_gens s' = rs_gens s.
   Proof.
     intros No. destruct o; cbn [Isolation.step]; intros H.
@@ -437,30 +1101,37 @@ Section P.
       injection H as <- <- <-. auto.
     - injection H as <- <- <-. auto.
     - discriminate.
+    - destruct (last_id table s =? n); [discriminate|]. injection H as <- <- <-. auto.
+    - destruct (assoc_find site (rs_states s)); [injection H as <- <- <-; auto|].
+      destruct (lru_call _ _ _ _) as [c [v|]]; [|discriminate]. injection H as <- <- <-. auto.
+    - destruct (assoc_find site (rs_states s)); [injection H as <- <- <-; auto|].
+      pose proof (with_chdir_restores (match c_dir cx with Some d => d | None => p_cwd p end) p file) as W.
+      destruct (Isolation.with_chdir _ _ _ _ _) as [q [v|er]]; [|discriminate]. cbn [fst] in W. subst q.
+      injection H as <- <- <-. auto.
   Qed.
 
-  Lemma exec_uids e ver ops : forall p s,
+  Lemma exec_uids e cx ops : forall p s,
     gens_inv p s ->
-    let r := exec_ops e ver p s ops in
-    p_uid p <= p_uid (fst r) /\
+    let r := exec_ops e cx p s ops in
+    p_uid p <= p_uid (fst (fst r)) /\
     NoDup (uid_pairs (o_obs (snd r))) /\
     (forall c i, In (c, i) (uid_pairs (o_obs (snd r))) ->
-       c < p_uid (fst r) /\
+       c < p_uid (fst (fst r)) /\
        (p_uid p <= c \/ exists g i0, gen_find g (rs_gens s) = Some (c, i0) /\ i0 <= i)).
   Proof.
     induction ops as [|o ops IH]; intros p s Inv; cbn zeta; cbn [Isolation.exec_ops].
     - cbn. splits; [lia|constructor|tauto].
-    - destruct (step e ver p s o) as [p' [[s' b]|er]] eqn:E;
-        [|cbn [fst snd o_obs]; pose proof (step_uid_mono e ver p s o) as M; rewrite E in M;
+    - destruct (step e cx p s o) as [p' [[s' b]|er]] eqn:E;
+        [|cbn [fst snd o_obs]; pose proof (step_uid_mono e cx p s o) as M; rewrite E in M;
           cbn [fst] in M; splits; [exact M|constructor|cbn; tauto]].
       assert (Hcase : (forall g, o <> OUid g) \/ exists g, o = OUid g).
       { destruct o; try (left; intros g0; discriminate). right. eexists. reflexivity. }
       destruct Hcase as [No|[g ->]].
-      + destruct (step_no_uid e ver p s o p' s' b No E) as (Hb & Hu & Hg).
+      + destruct (step_no_uid e cx p s o p' s' b No E) as (Hb & Hu & Hg).
         assert (Inv' : gens_inv p' s').
         { destruct Inv as [I1 I2]. unfold gens_inv. rewrite Hg, Hu. split; assumption. }
         specialize (IH p' s' Inv'). cbn zeta in IH.
-        destruct (exec_ops e ver p' s' ops) as [p'' out]. cbn [fst snd o_obs] in *.
+        destruct (exec_ops e cx p' s' ops) as [[p'' s''] out]. cbn [fst snd o_obs] in *.
         destruct IH as (M & N & B). rewrite uid_pairs_app, Hb. cbn [app].
         splits; [lia|exact N|].
         intros c i Hin. destruct (B c i Hin) as [Hlt Hor]. split; [exact Hlt|].
@@ -469,7 +1140,7 @@ Section P.
         destruct (gen_find g (rs_gens s)) as [[c0 i0]|] eqn:G; injection E as <- <- <-.
         * (* existing generator *)
           assert (Inv' : gens_inv (touch_masks p)
-                                  (mkRs (rs_ids s) (rs_states s) (gen_set g (c0, i0 + 1) (rs_gens s)))).
+                                  (mkRs (rs_ids s) (rs_states s) (gen_set g (c0, i0 + 1) (rs_gens s)) (rs_start s))).
           { split; cbn [rs_gens touch_masks p_uid].
             - intros g1 c i Hf. destruct (gslot_eqb g1 g) eqn:Eg.
               + apply gslot_eqb_eq in Eg. subst g1. rewrite gen_find_set_same in Hf.
@@ -495,7 +1166,7 @@ Section P.
                   by (intros ->; rewrite gslot_eqb_refl in E2; discriminate).
                 eapply I2; eauto. }
           specialize (IH _ _ Inv'). cbn zeta in IH.
-          destruct (exec_ops e ver (touch_masks p) _ ops) as [p'' out]. cbn [fst snd o_obs] in *.
+          destruct (exec_ops e cx (touch_masks p) _ ops) as [[p'' s''] out]. cbn [fst snd o_obs] in *.
           destruct IH as (M & N & B). cbn [touch_masks p_uid] in M, B.
           rewrite uid_pairs_app. unfold uid_pairs at 1 3. cbn [uid_obs map snd app].
           pose proof (I1 g c0 i0 G) as Hc0.
@@ -521,7 +1192,7 @@ Section P.
         * (* a generator is created: it draws the process-wide context counter *)
           assert (Inv' : gens_inv (touch_masks (draw_context p))
                                   (mkRs (rs_ids s) (rs_states s)
-                                        (gen_set g (p_uid p, first_index g + 1) (rs_gens s)))).
+                                        (gen_set g (p_uid p, first_index g + 1) (rs_gens s)) (rs_start s))).
           { split; cbn [rs_gens touch_masks draw_context p_uid].
             - intros g1 c i Hf. destruct (gslot_eqb g1 g) eqn:Eg.
               + apply gslot_eqb_eq in Eg. subst g1. rewrite gen_find_set_same in Hf.
@@ -548,7 +1219,7 @@ Section P.
                   by (intros ->; rewrite gslot_eqb_refl in E2; discriminate).
                 eapply I2; eauto. }
           specialize (IH _ _ Inv'). cbn zeta in IH.
-          destruct (exec_ops e ver (touch_masks (draw_context p)) _ ops) as [p'' out].
+          destruct (exec_ops e cx (touch_masks (draw_context p)) _ ops) as [[p'' s''] out].
           cbn [fst snd o_obs] in *.
           destruct IH as (M & N & B). cbn [touch_masks draw_context p_uid] in M, B.
           rewrite uid_pairs_app. unfold uid_pairs at 1 3. cbn [uid_obs map snd app].
@@ -573,8 +1244,9 @@ Section P.
                    right. exists g1, i1. split; assumption.
   Qed.
 
-  Lemma gens_inv_rs0 p : gens_inv p rs0.
-  Proof. split; cbn; intros; discriminate. Qed.
+
+  Lemma gens_inv_nogens p s : rs_gens s = [] -> gens_inv p s.
+  Proof. intros H. split; rewrite H; cbn; intros; discriminate. Qed.
 
   (* one run: its draws are pairwise distinct and their contexts lie between the counter before
      and the counter after the run *)
@@ -584,15 +1256,22 @@ Section P.
     NoDup (uid_pairs (o_obs (snd x))) /\
     (forall c i, In (c, i) (uid_pairs (o_obs (snd x))) -> p_uid p <= c < p_uid (fst x)).
   Proof.
-    cbn zeta. unfold Isolation.run. destruct (r_stage r).
-    - cbn. splits; [lia|constructor|tauto].
-    - cbn. splits; [lia|constructor|tauto].
-    - pose proof (exec_uids e (effective_version e r) (r_ops r)
-                            (set_rowhist p (Some [])) rs0 (gens_inv_rs0 _)) as H.
-      cbn zeta in H. destruct (exec_ops _ _ _ _ _) as [p' out]. cbn [fst snd] in *.
-      cbn [set_rowhist p_uid] in H. destruct H as (M & N & B). splits; auto.
-      intros c i Hin. destruct (B c i Hin) as [Hlt [Hge|(g & i0 & Hf & _)]]; [lia|].
-      cbn in Hf. discriminate.
+    cbn zeta. unfold Isolation.run. pose proof (pre_execute_frame p e r) as F. cbn zeta in F.
+    destruct (pre_execute p e r) as [p1 [u|er]]; cbn [fst snd o_obs] in *; destruct F as (U & _);
+      [|cbn; splits; [lia|constructor|tauto]].
+    set (cx := mkCtx (effective_version e r) (r_dir r)).
+    set (q := set_rowhist p1 (Some [])). set (s0 := init_rstate (r_cont r)).
+    destruct (iterate_unroll e cx (r_crit r) (r_ops r) (iter_fuel (r_crit r)) q s0) as [k Hk]. cbn zeta in Hk.
+    assert (Hg : rs_gens s0 = []) by (unfold s0, init_rstate; destruct (r_cont r); reflexivity).
+    pose proof (exec_uids e cx (flat k (r_ops r)) q s0 (gens_inv_nogens q s0 Hg)) as H. cbn zeta in H.
+    destruct (iterate (iter_fuel (r_crit r)) e cx (r_crit r) (r_ops r) q s0) as [p' out].
+    destruct (exec_ops e cx q s0 (flat k (r_ops r))) as [[q' s'] out']. cbn [fst snd] in *.
+    destruct Hk as (A & B). rewrite A.
+    assert (Hu : p_uid p' = p_uid q') by (apply (f_equal p_uid) in B; exact B).
+    assert (Hq : p_uid q = p_uid p) by (unfold q; cbn [set_rowhist p_uid]; exact U).
+    rewrite Hu. rewrite Hq in H. destruct H as (M & N & Bd). splits; auto.
+    intros c i Hin. destruct (Bd c i Hin) as [Hlt [Hge|(g & i0 & Hf & _)]]; [lia|].
+    rewrite Hg in Hf. cbn in Hf. discriminate.
   Qed.
 
   Definition all_uid_pairs (os : list outcome) : list (Z * Z) :=
@@ -663,9 +1342,10 @@ End P.
    numeric generators (unique_id, UniqueId.unique_id; small-id or big-id mode, any pid) over a
    whole sequence of runs in one process are pairwise distinct. *)
 Theorem uid_values_distinct (parse_d parse_dt : key -> option Z)
+        (read_file : string -> string -> result Z) (load_plugin : string -> string -> result bool)
         (mask : Z -> Z -> Z) (nbits : Z -> Z) (big : bool) (pid : list Z) p l vs :
   map (fun ci => num_value mask nbits (default_numeric_tpl big) pid (fst ci) (snd ci) true)
-      (all_num_uid_pairs (snd (run_seq parse_d parse_dt p l))) = map Ok vs ->
+      (all_num_uid_pairs (snd (run_seq parse_d parse_dt read_file load_plugin p l))) = map Ok vs ->
   NoDup vs.
 Proof.
   intros H. eapply NoDup_of_injective_keys; [| |exact H].
